@@ -12,8 +12,10 @@ spec -> code: TLC builds argument lists by actions (a bottom-up stack machine, s
     exports every list with its text under each style of a pairwise covering array of layout
     knobs (TLC checks the coverage as an ASSUME) and with Denote(args).  Each text is placed in a
     probe tag built with @template_tag (records *args / **kwargs / flags) and in
-    {% component "<probe>" ... %} (records get_context_data(*a, **kw)); received values must
-    equal the expected ones with equal types (SafeString-ness ignored).  Leaves are valued by
+    {% component "<probe>" ... %} (records get_context_data(*a, **kw)); in one layout per list
+    also in the same component behind the shorthand tag formatter ({% <name> ... %}) and - for
+    keyword-only lists - in {% slot "s" ... %} (a Python fill records the slot data).  Received
+    values must equal the expected ones with equal types (SafeString-ness ignored).  Leaves are valued by
     stock Django: FilterExpression(canonical text).resolve(context); nested-template strings by
     a stock Lexer/Parser render.  Invalid lists must raise TemplateSyntaxError.
 code -> spec: a seeded random driver builds deeper / wider lists with random styles (knob values
@@ -28,6 +30,10 @@ arguments (C11); filter *arguments* in a dict-key / dict-spread position (inside
 the first `:` ends the key - documented restriction); filters applied to list/dict literals or
 to nested-template strings; backslash escapes inside nested-template strings; spreading a value
 of the wrong kind; keys containing `:` coming out of a spread dict; whitespace after `=`.
+Set of outcomes instead of one: whitespace between `*` / `**` and a *literal* operand (`[* [1]]`,
+`{** {"a": 1}}`) - documented for a variable operand only; the tag may be refused with
+TemplateSyntaxError (the current scanner does, counted as zone:...:refused in the evidence), but
+if it is accepted it must denote the same values.
 `...[..]` / `...{..}` at top level is listed both as supported and as invalid in parse_tag's
 docstring; the tests and the changelog use it, so it is generated as valid.
 """
@@ -49,7 +55,7 @@ from .core import Check, MachineryError, workdir
 PID = "C02"
 RULE = ("TLC (MC_C02) enumerates by BFS every argument list inside the bounds of configurations V/A/R/I and "
         "samples deeper ones with -simulate (S); each list is replayed on the probe tag and on the component tag "
-        "in k layouts of a 15-row pairwise covering array (quick k=3, thorough k=6, rotating with the case number); "
+        "in k layouts of a 15-row pairwise covering array (quick k=3, thorough k=5, rotating with the case number); "
         "random deeper lists are validated by Trace_C02.  Non-trivial = anything but a single plain positional "
         "leaf; distinct by hash of the abstract argument list")
 ASSUMPTIONS = [
@@ -61,6 +67,8 @@ ASSUMPTIONS = [
 ]
 PROBE_TAG = "vfprobe"
 PROBE_COMP = "vf_probe_c02"
+SHORT_TAG = "vf_short_c02"
+PATHS = ("probe", "comp", "short", "slot")
 
 # name -> (MaxLeaves, MaxCont, MaxDepth, MaxWidth, MaxArgs, Rich, AllowInvalid)
 CONFIGS = {
@@ -74,7 +82,7 @@ CONFIGS = {
         "V": (4, 3, 2, 2, 1, False, False),
         "A": (3, 1, 1, 2, 3, False, False),
         "R": (2, 1, 1, 2, 2, True, False),
-        "I": (2, 2, 2, 2, 2, False, True),
+        "I": (2, 2, 2, 2, 1, False, True),
     },
     "selftest": {
         "V": (2, 2, 2, 2, 1, False, False),
@@ -121,6 +129,29 @@ def env() -> Dict[str, Any]:
     if PROBE_COMP in registry.all():
         registry.unregister(PROBE_COMP)
     registry.register(PROBE_COMP, VfProbeC02)
+
+    # the same receiver behind the shorthand tag formatter ({% <name> ... %}), private registry
+    from django_components import ComponentRegistry, RegistrySettings
+    from django_components.tag_formatter import ShorthandComponentFormatter
+    slib = Library()
+    sreg = ComponentRegistry(library=slib, settings=RegistrySettings(tag_formatter=ShorthandComponentFormatter()))
+
+    class VfShortC02(Component):
+        template = "[H]"
+
+        def get_context_data(self, *args, **kwargs):
+            rec.append(("short", args, kwargs, None))
+            return {}
+
+    sreg.register(SHORT_TAG, VfShortC02)
+    eng.template_libraries["vf_c02_short"] = slib
+    eng.template_builtins.append(slib)
+
+    def slot_fill(ctx, data, ref):      # Python-side fill of slot "s": receives the slot data
+        rec.append(("slot", (), dict(data), None))
+        return "[S]"
+    _ENV["slot_fill"] = slot_fill
+    _ENV["Component"] = Component
     _ENV.update(rec=rec, engine=eng, parser=Parser([], builtins=eng.template_builtins), stock={}, ctx=None)
     return _ENV
 
@@ -250,26 +281,37 @@ def same(a: Any, b: Any) -> bool:
 def source(path: str, text: str, slash: bool) -> str:
     if path == "probe":
         return "{% " + PROBE_TAG + " " + text + " %}" + ("" if slash else "B{% end" + PROBE_TAG + " %}") + "T"
+    if path == "short":
+        return "{% " + SHORT_TAG + " " + text + " %}" + ("" if slash else "{% end" + SHORT_TAG + " %}") + "T"
+    if path == "slot":
+        return '{% slot "s" ' + text + " %}" + ("" if slash else "B{% endslot %}") + "T"
     return "{% component '" + PROBE_COMP + "' " + text + " %}" + ("" if slash else "{% endcomponent %}") + "T"
 
 
+WANT_OUT = {"probe": "[P]T", "comp": "[C]T", "short": "[H]T", "slot": "[S]T"}
+
+
 def observe(path: str, text: str, slash: bool) -> Dict[str, Any]:
-    """Render the text inside the probe tag / component tag.  -> {"o": "values", args, kwargs, flags}
+    """Render the text inside the receiver `path`.  -> {"o": "values", args, kwargs, flags}
     | {"o": "tse"} | {"o": "exc:<Class>"} | {"o": "malformed", ...}"""
     from django.template import Context, Template, TemplateSyntaxError
     e = env()
     rec = e["rec"]
     del rec[:]
     try:
-        out = Template(source(path, text, slash)).render(Context(dict(e["ctx"])))
+        if path == "slot":
+            # a host component whose template is the {% slot %} tag; the fill is a Python function
+            host = type("VfSlotHostC02", (e["Component"],), {"template": source(path, text, slash)})
+            out = host.render(slots={"s": e["slot_fill"]}, context=Context(dict(e["ctx"])))
+        else:
+            out = Template(source(path, text, slash)).render(Context(dict(e["ctx"])))
     except TemplateSyntaxError as ex:
         return {"o": "tse", "msg": str(ex)[:200]}
     except Exception as ex:  # noqa: BLE001 - the outcome class is what is observed
         return {"o": "exc:" + type(ex).__name__, "msg": str(ex)[:200]}
     mine = [r for r in rec if r[0] == path]
-    want_out = "[P]T" if path == "probe" else "[C]T"
     out = re.sub(r"<!-- _RENDERED [^>]*-->", "", out)
-    if len(mine) != 1 or out != want_out:
+    if len(mine) != 1 or out != WANT_OUT[path]:
         return {"o": "malformed", "calls": len(mine), "out": out[:200]}
     _, a, kw, fl = mine[0]
     return {"o": "values", "args": list(a), "kwargs": dict(kw), "flags": fl}
@@ -302,12 +344,18 @@ def check_case(case: Dict[str, Any], styles: List[Dict[str, Any]], sfrom: int,
         exp = None if case["invalid"] else expected_call(case["expect"])
     except Exception as ex:  # stock Django cannot value a leaf: the case is outside the model
         raise MachineryError(f"stock evaluation failed for {case['args']}: {ex!r}")
+    seen_first = False
     for j, syms in enumerate(case["texts"]):
         if pick is not None and j not in pick:
             continue
         st = styles[sfrom - 1 + j]
         text = "".join(syms)
-        for path in ("probe", "comp"):
+        first = not seen_first
+        seen_first = True
+        # the tag made with @template_tag and the component tag in every replayed layout; the
+        # shorthand tag and the slot (keyword-only lists) in the first one
+        paths = ["probe", "comp"] + (["short"] + (["slot"] if case.get("slot") else []) if first else [])
+        for path in paths:
             obs = observe(path, text, st["slash"])
             if compare(obs, [outcome], exp, path):
                 continue
@@ -316,7 +364,7 @@ def check_case(case: Dict[str, Any], styles: List[Dict[str, Any]], sfrom: int,
                 continue
             key = None
             for dev in case.get("devs", []):
-                if dev["path"] not in ("both", path):
+                if path not in dev["paths"]:
                     continue
                 dexp = expected_call(dev["expect"]) if "values" in dev["outcomes"] else None
                 if compare(obs, dev["outcomes"], dexp, path):
@@ -363,12 +411,16 @@ def export_cases(tier: str, w: Path, with_props: bool = True, sim: bool = False,
     cfgs = CONFIGS[tier]
     jobs = [(n, c, str(w), None, None, None) for n, c in cfgs.items()]
     if sim:
-        n = 3000 if tier == "thorough" else 400
-        jobs.append(("S", (9, 5, 3, 3, 4, True, False), str(w), f"num={n}", seed + 1, 60))
+        # random walks of the same machine beyond the BFS bounds (small alphabet: with the rich one
+        # almost every successor is a PushLeaf and the walks rarely complete a list)
+        n = 12000 if tier == "thorough" else 1500
+        jobs.append(("S", (9, 5, 3, 3, 4, False, False), str(w), f"num={n}", seed + 1, 40))
     res, props = {}, {}
     with ThreadPoolExecutor(max_workers=8) as ex:
         futs = [ex.submit(_tlc_export, j) for j in jobs]
-        pf = [ex.submit(_tlc_props, (n, c, str(w), 2)) for n, c in cfgs.items()] if with_props else []
+        # the specification-level invariants: every configuration in thorough, V and R in quick
+        pc = {n: c for n, c in cfgs.items() if tier != "quick" or n in ("V", "R")}
+        pf = [ex.submit(_tlc_props, (n, c, str(w), 2)) for n, c in pc.items()] if with_props else []
         for f in futs:
             name, r, out = f.result()
             tlc.require_ok(r, f"MC_C02 export {name}")
@@ -448,7 +500,7 @@ def replay_cases(chk: Check, header, cases, label: str, procs: int, k: Optional[
     ntexts = sum(len(picks(i, len(c["texts"]), k)) for i, c in enumerate(cases))
     chk.add("cases_replayed", len(cases))
     chk.add("texts_replayed", ntexts)
-    chk.add("real_renders", 2 * ntexts)
+    chk.add("real_renders", 2 * ntexts + len(cases) + sum(1 for c in cases if c.get("slot")))
 
 
 def nontrivial(case) -> bool:
@@ -812,6 +864,20 @@ def leaves_of(args, st_canon, strtab, tpltab):
     return out
 
 
+def slot_applies(args, ctxspec) -> bool:
+    """Whether the driver feeds the list to {% slot %} (keyword-only lists); TLC checks the choice
+    against SlotApplies(args)."""
+    for a in args:
+        if a["t"] in ("kw", "agg", "kwspread"):
+            continue
+        if a["t"] == "spread" and a["tok"] == "...":
+            v = a["v"]["b"] if a["v"]["t"] == "filt" else a["v"]
+            if v["t"] == "dict" or (v["t"] == "var" and ctxspec.get(v["n"], {}).get("t") == "dict"):
+                continue
+        return False
+    return True
+
+
 def obs_record(obs: Dict[str, Any]) -> Dict[str, Any]:
     if obs["o"] != "values":
         return {"o": obs["o"], "args": [], "kwargs": [], "flags": []}
@@ -844,9 +910,13 @@ def record_traces(header, seed: int, n: int, depth: int) -> List[Dict[str, Any]]
                 lv.append({"kind": kind, "canon": list(can), "val": typed(val)})
         except Exception:  # noqa: BLE001 - stock Django itself raises on a leaf (e.g. 7|first): no meaning, skip
             continue
-        out.append({"id": len(out) + 1, "args": args, "style": st, "text": syms, "lv": lv,
-                    "probe": obs_record(observe("probe", text, st["slash"])),
-                    "comp": obs_record(observe("comp", text, st["slash"]))})
+        rec = {"id": len(out) + 1, "args": args, "style": st, "text": syms, "lv": lv}
+        for path in PATHS:
+            if path == "slot" and not slot_applies(args, header["ctx"]):
+                rec[path] = {"o": "n/a", "args": [], "kwargs": [], "flags": []}
+            else:
+                rec[path] = obs_record(observe(path, text, st["slash"]))
+        out.append(rec)
     return out
 
 
@@ -870,7 +940,7 @@ def code_to_spec(chk: Check, header, ntraces: int, depth: int, batch: int = 400)
                 chk.count(t["args"], True)
                 continue
             chk.count(t["args"], True)
-            for what, status in zip(("layout", "probe", "comp"), st):
+            for what, status in zip(("layout",) + PATHS, st):
                 if status == "ok":
                     continue
                 key = status[4:] if status.startswith("dev:") else None
@@ -891,9 +961,9 @@ def _verdicts(r, n: int) -> Dict[int, Optional[List[str]]]:
         m = re.match(r'"ACCEPT (\d+)"$', line)
         if m:
             out[int(m.group(1))] = None
-        m = re.match(r'"REJECT (\d+) (\S+) (\S+) (\S+)"$', line)
+        m = re.match(r'"REJECT (\d+) (\S+) (\S+) (\S+) (\S+) (\S+)"$', line)
         if m:
-            out[int(m.group(1))] = [m.group(2), m.group(3), m.group(4)]
+            out[int(m.group(1))] = [m.group(i) for i in range(2, 7)]
     if len(out) != n:
         raise MachineryError(f"Trace_C02: {len(out)} verdicts for {n} traces\n" + "\n".join(r.out.splitlines()[-40:]))
     return out
@@ -902,7 +972,7 @@ def _verdicts(r, n: int) -> Dict[int, Optional[List[str]]]:
 def run(tier: str) -> int:
     env()
     chk = Check(PID, tier, "model_checking")
-    header = spec_to_code(chk, tier, procs=8, k=3 if tier == "quick" else 6)
+    header = spec_to_code(chk, tier, procs=8, k=3 if tier == "quick" else 5)
     code_to_spec(chk, header, ntraces=600 if tier == "quick" else 6000, depth=3 if tier == "quick" else 4)
     chk.cov["exhaustive"] = True
     chk.cov["rule"] = RULE
@@ -919,7 +989,7 @@ def replay(path: str) -> int:
     kind = case.get("kind")
     if kind == "replay":
         fake = {"args": case["args"], "invalid": case["invalid"], "texts": [[case["text"]]], "expect": case["expect"],
-                "devs": case.get("devs", []), "lenient": [False]}
+                "devs": case.get("devs", []), "lenient": [False], "slot": case["path"] == "slot"}
         styles = [{"slash": case["text"].rstrip().endswith("/")}]
         fails = [f for f in check_case(fake, styles, 1) if f.get("path") == case["path"]]
         print(json.dumps({"text": case["text"], "path": case["path"], "failures": fails}, indent=1, default=repr))
@@ -941,8 +1011,11 @@ def replay(path: str) -> int:
             val = stock_leaf("".join(can)) if k == "leaf" else stock_render("".join(can))
             lv.append({"kind": k, "canon": list(can), "val": typed(val)})
         rec = {"id": 1, "args": case["args"], "style": st, "text": text_of(case["args"], st, strtab, tpltab), "lv": lv,
-               "probe": obs_record(observe("probe", case["text"], st["slash"])),
-               "comp": obs_record(observe("comp", case["text"], st["slash"]))}
+               }
+        for pth in PATHS:
+            rec[pth] = ({"o": "n/a", "args": [], "kwargs": [], "flags": []}
+                        if pth == "slot" and not slot_applies(case["args"], header["ctx"])
+                        else obs_record(observe(pth, case["text"], st["slash"])))
         f = w / "one.ndjson"
         tlc.write_ndjson(f, [rec])
         cfg = w / "trace.cfg"
@@ -1099,7 +1172,23 @@ def selftest(tier: str) -> int:
             value = f"{self.filter}{value}"
         return value
 
+    import django_components.tag_formatter as tfm
+    orig_short_parse = tfm.ShorthandComponentFormatter.parse
+
+    def shorthand_pops_twice(self, tokens):
+        r = orig_short_parse(self, tokens)
+        return tfm.TagResult(r.component_name, r.tokens[1:])
+
+    orig_comp_parse = tfm.ComponentFormatter.parse
+
+    def formatter_unquotes_every_token(self, tokens):
+        r = orig_comp_parse(self, tokens)
+        from django_components.util.misc import is_str_wrapped_in_quotes
+        return tfm.TagResult(r.component_name, [t[1:-1] if is_str_wrapped_in_quotes(t) else t for t in r.tokens])
+
     probes = [
+        ("shorthand-formatter-pops-twice", many((tfm.ShorthandComponentFormatter, "parse", shorthand_pops_twice))),
+        ("formatter-unquotes-every-token", many((tfm.ComponentFormatter, "parse", formatter_unquotes_every_token))),
         ("list-spread-appends", many((tp.TagValueStruct, "resolve", list_spread_appends))),
         ("dict-first-duplicate-wins", many((tp.TagValueStruct, "resolve", dict_first_key_wins))),
         ("aggregate-split-at-last-colon", many((ttag, "process_aggregate_kwargs", agg_rsplit))),
